@@ -119,7 +119,8 @@ Section NotFound.
         { intros dp H. unfold reg_deps. rewrite Hps. cbn [snd]. apply deps_of_In. exact H. }
         pose proof (args_found d h io0 ps1 rs [] Hc Hd (f_equal fst Hps) Hin) as Ha.
         destruct (args_loop (resolve_d f) rs h io0 ps1 []) as [rs1 [args|e]]; cbn [snd] in *; [|congruence].
-        destruct (cancels (ds_reg d) _); destruct (effective_outcome (ds_reg d) _); discriminate.
+        destruct (cancels (ds_reg d) _); destruct (effective_outcome (ds_reg d) _); try discriminate;
+          match goal with |- context [stores_any ?a ?b ?c] => destruct (stores_any a b c) end; discriminate.
     Qed.
   End Step.
 
@@ -242,6 +243,12 @@ Section Captive.
     - apply IH. apply inv_drop. exact Hp.
   Qed.
 
+  Lemma inv_drop_only h d inv ks : forall p, inv_p p -> inv_p (drop_only p h d inv ks).
+  Proof.
+    induction ks as [|k ks IH]; intros p Hp; cbn [drop_only]; [exact Hp|].
+    destruct (output_desc (p_descs p) d k); [apply IH; exact Hp|]. apply IH. apply inv_drop. exact Hp.
+  Qed.
+
   Lemma builtin_ns h t a : builtin h t = Some a -> ns_aval a.
   Proof.
     unfold builtin. destruct (t =? T_CTX); [intros E; inversion E; exact I|].
@@ -318,8 +325,8 @@ Section Captive.
         + destruct (IHp rs1 (a :: acc) Hc1 Hi1 Hd Hrest) as (H1 & H2 & H3). split; [exact H1|split; [exact H2|]].
           intros Hl Hacc. apply H3; [exact Hl|]. constructor; [exact (Hr1 Hl a eq_refl)|exact Hacc].
         + destruct (io && d_opt dp).
-          * destruct (IHp rs1 (AZero :: acc) Hc1 Hi1 Hd Hrest) as (H1 & H2 & H3). split; [exact H1|split; [exact H2|]].
-            intros Hl Hacc. apply H3; [exact Hl|]. constructor; [exact I|exact Hacc].
+          * destruct (IHp rs1 (zero_of dp :: acc) Hc1 Hi1 Hd Hrest) as (H1 & H2 & H3). split; [exact H1|split; [exact H2|]].
+            intros Hl Hacc. apply H3; [exact Hl|]. constructor; [unfold zero_of; destruct (_ && _); exact I|exact Hacc].
           * split; [exact Hc1|split; [exact Hi1|intros _ _ args E; discriminate]].
         + split; [exact Hc1|split; [exact Hi1|intros _ _ args E; discriminate]].
       - destruct (IHp rs (AZero :: acc) Hc Hi Hd (fun dp0 H => Hin dp0 (or_intror H))) as (H1 & H2 & H3).
@@ -385,9 +392,11 @@ Section Captive.
         destruct H2 as [Hp2 Hev2].
         assert (Hinv2 : CInv rs2) by (split; [rewrite Hp2; exact Hp1|exact Hev2]).
         destruct (effective_outcome (ds_reg d) inv); try (split; [exact Hinv2|intros _ a E; discriminate]).
-        cbn [fst snd].
-        split; [split; [cbn [rs_p with_p]; apply inv_fan_out; [exact Hd|rewrite Hp2; exact Hp1]|exact Hev2]|].
-        intros Hl a E. injection E as <-. change (ns_aval (aval_of (out_inst (ds_reg d) inv (ds_out d)))). apply aval_of_ns. unfold out_inst. apply (own_instance_ns d); assumption.
+        match goal with |- context [stores_any ?a ?b ?c] => destruct (stores_any a b c) end; cbn [fst snd].
+        * split; [split; [cbn [rs_p with_p]; apply inv_fan_out; [exact Hd|rewrite Hp2; exact Hp1]|exact Hev2]|].
+          intros Hl a E. injection E as <-. change (ns_aval (aval_of (out_inst (ds_reg d) inv (ds_out d)))). apply aval_of_ns. unfold out_inst. apply (own_instance_ns d); assumption.
+        * split; [split; [cbn [rs_p with_p]; apply inv_drop_only; rewrite Hp2; exact Hp1|exact Hev2]|].
+          intros _ a E. discriminate.
     Qed.
   End Step.
 
@@ -422,6 +431,7 @@ Section Captive.
   Lemma K_run_inits ds : forall rs h, K rs -> (forall d, In d ds -> In d c) -> K (fst (run_inits rs h ds)).
   Proof.
     induction ds as [|d ds IH]; intros rs h H Hin; cbn [run_inits]; [exact H|].
+    destruct (lookup_i (sc_cache (get_scope (rs_p rs) h)) (ds_ident d)); [apply IH; [exact H|intros; apply Hin; right; assumption]|].
     pose proof (K_create_top rs h d H (Hin d (or_introl eq_refl))) as H1.
     destruct (create_top rs h d) as [rs1 [a|e|]]; cbn [fst] in *; try exact H1. apply IH; [exact H1|intros; apply Hin; right; assumption].
   Qed.
